@@ -76,7 +76,7 @@ CHECKS["C10"] = dict(
 CHECKS["C12"] = dict(
     category="model_checking", design_ref="5 C12", engine="tlc+rqsim",
     technique="TLA+ protocol spec (Requests.tla) as oracle; TLC validation of seeded interleavings of the critical sections of the real pending-request tables",
-    text="Requests.tla states which terminal result (and Committed notification) a client may read for an accepted request given what the workers did (applied with which value / rejected / dropped / ready-to-read + applied index / deadline passed / table closed); TLC judges every value read from the result channels of the real pendingProposal / pendingReadIndex / pendingConfigChange / pendingSnapshot / pendingRaftLogQuery objects (with the real queues and sync.Pool reuse, Release before and after reading) under thousands of seeded interleavings of client, step-worker, apply-worker and stopper steps, and requires exactly one terminal result per accepted request once the shard is stopped and the clocks have run.",
+    text="Requests.tla states which terminal result (and Committed notification) a client may read for an accepted request given what the workers did (applied with which value / rejected / dropped / ready-to-read + applied index / deadline passed / table closed); TLC judges every value read from the result channels of the real pendingProposal / pendingReadIndex / pendingConfigChange / pendingSnapshot / pendingRaftLogQuery objects (with the real queues and sync.Pool reuse, Release before and after reading) under thousands of seeded interleavings of client, step-worker, apply-worker and stopper steps, and requires exactly one terminal result per accepted request once the shard is stopped and the clocks have run. A racing epilogue (goroutines proposing / reading while the tables are closed) and a NodeHost-level engine (nhsim client programs under faults, RequestsHostTrace.tla: no handle of a running NodeHost stays without a result 5 s past its deadline) complete it.",
     note="Trusted: TLC; the rqsim driver (harness/root/rqsim_test.go). Interleavings are sampled, each mutex-protected method is one step; proposalShard.propose is one step.")
 
 CHECKS["C15"] = dict(
@@ -183,8 +183,8 @@ def main():
             {"name": "tlc+rsim", "path": "/verif/lib/raftfamily.py",
              "serves_properties": ["C02", "C03", "C06", "C07", "C17", "C18"],
              "kind_free_text": "TLC exhaustive model checking of MCRaft + TLC trace validation (RaftTrace) of executions of the real internal/raft recorded by the rsim harness"},
-            {"name": "tlc+nhsim", "path": "/verif/lib/nhfamily.py", "serves_properties": ["C01", "C03", "C04", "C07", "C08", "C11", "C16", "C17", "C20"],
-             "kind_free_text": "TLC model checking (MCPipeline, MCClientHistory) + TLC evaluation (ClientHistoryTrace, PipelineTrace, SMContractTrace, SnapshotDirTrace, ImportTrace, NodeSafetyTrace, MemberTrace, CompactionTrace, QuiesceHostTrace) of event streams recorded from in-process clusters of real NodeHosts (harness/root/nhsim_*_test.go)"},
+            {"name": "tlc+nhsim", "path": "/verif/lib/nhfamily.py", "serves_properties": ["C01", "C03", "C04", "C07", "C08", "C11", "C12", "C16", "C17", "C20"],
+             "kind_free_text": "TLC model checking (MCPipeline, MCClientHistory) + TLC evaluation (ClientHistoryTrace, PipelineTrace, SMContractTrace, SnapshotDirTrace, ImportTrace, NodeSafetyTrace, MemberTrace, CompactionTrace, QuiesceHostTrace, RequestsHostTrace) of event streams recorded from in-process clusters of real NodeHosts (harness/root/nhsim_*_test.go)"},
             {"name": "tlc+qssim/rlsim", "path": "/verif/lib/c17b.py", "serves_properties": ["C17"],
              "kind_free_text": "TLC model checking of MCQuiesce / MCRateLimit + TLC trace evaluation of the real quiesceState and InMemRateLimiter"},
             {"name": "tlc+smsim", "path": "/verif/lib/rsmchecks.py", "serves_properties": ["C05", "C08", "C07"],
